@@ -113,8 +113,17 @@ def renderRetE : Res RetE → String
 
 def liftRetE {α} (f : α → RetE) (m : MT α) : MT RetE := do let a ← m; pure (f a)
 
+/-- active mode on a client whose control socket is closed (a 421 closed it; no disconnect / connect since): the set-up of
+    a transfer begins with `control_connection::get_local_endpoint()`, which fails on the closed descriptor - the call throws
+    before a listener is opened, before the observers are told of a command.  The verified model opens the listener first
+    and fails at the write (its theorems about transfers assume a session that is in step; `C13.no_write_while_disconnected`
+    holds for both orders); this order of the two failures is modelled here, in the driver. -/
+def deadActiveSetup (op : SOp) (w : WorldT) : Bool :=
+  (op.name = "get" || op.name = "put" || op.name = "list") && !w.base.connected && w.base.mode == .active
+
 def e2eProgram (op : SOp) (w : WorldT) (tcpOk : Bool := true) : Option (MT RetE × WorldT) := do
   let a := op.args
+  if deadActiveSetup op w then pure (throwT, w) else
   match op.name with
   | "connect" =>
     let cred ← if a.length ≥ 4 then (do let u ← hexArg a 2; let p ← hexArg a 3; pure (some (u, p))) else pure none
